@@ -50,6 +50,7 @@ type Contract struct {
 	Modifies []*Clause
 	Loops    map[int]*LoopSpec
 	CallAsserts map[string][]*Clause // "callee#n" -> asserts checked before that call
+	CallInterf  map[string][]*Clause // "callee#n" -> locations havocked after that call (interference of other goroutines)
 	OnOpen   map[string][]*Clause // rely: facts that hold once a receive on this channel field yielded a value
 	OnClosed map[string][]*Clause // rely: facts that hold once a receive found this channel field closed
 	Stable   []string   // channel fields nobody else closes while this function runs (rely, justified at the contract)
@@ -211,7 +212,7 @@ func (S *Specs) LoadFile(path string, goFile bool) error {
 			if _, dup := S.Contracts[key]; dup {
 				return fmt.Errorf("%s: duplicate contract for %s", src, key)
 			}
-			cur = &Contract{Key: key, Params: params, Results: results, Loops: map[int]*LoopSpec{}, CallAsserts: map[string][]*Clause{}, Props: map[string]bool{}, Src: src, Trusted: !goFile}
+			cur = &Contract{Key: key, Params: params, Results: results, Loops: map[int]*LoopSpec{}, CallAsserts: map[string][]*Clause{}, CallInterf: map[string][]*Clause{}, Props: map[string]bool{}, Src: src, Trusted: !goFile}
 			S.Contracts[key] = cur
 			curLemma = nil
 			last = nil
@@ -334,6 +335,16 @@ func (S *Specs) LoadFile(path string, goFile bool) error {
 			}
 		case "at":
 			// at call Callee#n: assert E
+			if ri := regexp.MustCompile(`^call\s+(\S+)\s*:\s*interference\s+(.*)$`).FindStringSubmatch(rest); ri != nil {
+				// at call Callee#n: interference loc, ...  (locations other goroutines may change while the call blocks)
+				for _, part := range splitTop(ri[2], ',') {
+					cur.CallInterf[ri[1]] = append(cur.CallInterf[ri[1]], mkClause("interference", strings.TrimSpace(part)))
+				}
+				for _, t := range tags {
+					cur.Props[t] = true
+				}
+				continue
+			}
 			r := regexp.MustCompile(`^call\s+(\S+)\s*:\s*assert\s+(.*)$`).FindStringSubmatch(rest)
 			if r == nil {
 				// at recv field#n: assert E   (blocking receive on the channel loaded from that struct field)
@@ -511,6 +522,9 @@ func (S *Specs) Finish() error {
 			all = append(all, l.Modifies...)
 		}
 		for _, as := range c.CallAsserts {
+			all = append(all, as...)
+		}
+		for _, as := range c.CallInterf {
 			all = append(all, as...)
 		}
 	}
